@@ -155,6 +155,16 @@ func c04Oracle(sc *Scenario, rec *Rec, s *mc.Sched) []mc.Violation {
 				add("wrong-code", fmt.Sprintf("final[%d]=%s want %s or handler's %s", k, normFinal(f), want, ref.Code))
 			}
 		}
+		// once a receive has reported the cancellation, no later receive may hand out a message
+		seenCancel := false
+		for k, res := range rr.RecvRes {
+			if seenCancel && res == "nil" {
+				add("message-after-cancellation-status", fmt.Sprintf("receive #%d returned a message after an earlier receive had reported %s", k, want))
+			}
+			if statusCodeOf(res) == want {
+				seenCancel = true
+			}
+		}
 		if rpc.Kind == "unary" && rr.FinalErr == "nil" {
 			if ref.Status != "nil" || !complete {
 				add("success-with-missing-data", fmt.Sprintf("Invoke nil with %v, handler status %s", rr.CliRecv, ref.Code))
